@@ -310,6 +310,12 @@ theorem invC_step {s s' : St} {t : Tid} (hL : InvL s) (h : InvC s) (hs : Step s 
       (batchX_keep h.batchX rfl rfl rfl (by rw [hc.runs]; exact id))
   | skipDrain c hp hf =>
     exact invC_move h rfl (by cls) (by cls) rfl rfl rfl rfl rfl rfl (batchX_keep h.batchX rfl rfl rfl (by cls))
+  | skipShared c hp hf =>
+    exact invC_move h rfl (by cls) (by cls) rfl rfl rfl rfl rfl rfl (batchX_keep h.batchX rfl rfl rfl (by cls))
+  | failTry p p' hp hpp hfail =>
+    subst hp
+    rcases hpp with ⟨k, a, h1, h2⟩ | ⟨c, h1, h2⟩ <;> subst h2 <;>
+      exact invC_move h rfl (by cls) (by cls) rfl rfl rfl rfl rfl rfl (batchX_keep h.batchX rfl rfl rfl (by cls))
   | call k a hp hsub => exact invC_call h hp hsub rfl rfl rfl rfl rfl rfl rfl rfl
   | lockX p p' hp hpp hm hs =>
     subst hp
